@@ -48,6 +48,10 @@ type oracles struct {
 	stateSigs map[string]bool
 
 	lastProcessed []string
+	firstSeen     map[string]string
+	changedAt     map[string][]int // tag -> steps at which its matches or definition changed
+	flagged       map[string]bool
+	onDemandNote  string
 	lastAPI       *struct {
 		op Op
 		r  OpResult
@@ -55,7 +59,7 @@ type oracles struct {
 }
 
 func newOracles(s *Sim) *oracles {
-	return &oracles{s: s, prop: s.plan.Prop, held: map[int]*heldView{}, refCache: map[string][]*oracle.StreamSig{}, convSpawnAttached: map[int]map[string]bool{}, onDemand: map[string]bool{}, stateSigs: map[string]bool{}}
+	return &oracles{s: s, prop: s.plan.Prop, held: map[int]*heldView{}, refCache: map[string][]*oracle.StreamSig{}, convSpawnAttached: map[int]map[string]bool{}, onDemand: map[string]bool{}, stateSigs: map[string]bool{}, firstSeen: map[string]string{}, changedAt: map[string][]int{}, flagged: map[string]bool{}}
 }
 
 // trigger names the kind of step at which a violation was first observed.
@@ -297,13 +301,37 @@ func (o *oracles) afterAPI(op Op, r OpResult) {
 	case "ReleaseView":
 		delete(o.held, op.V)
 	case "StreamData":
+		o.onDemandNote = ""
 		if op.Conv != "" && r.Err == "" && r.Found {
+			// was the view the user converted through still current for that stream?
+			if hv := o.held[op.V]; hv != nil {
+				fr := o.s.probe(Op{K: "FreshView"})
+				cur := ""
+				if fr.View != nil {
+					for _, sl := range fr.View.Streams {
+						if sl.ID == op.Stream {
+							cur = sl.Key
+						}
+					}
+				}
+				o.onDemandNote = "/current-view"
+				for _, sl := range hv.first.Streams {
+					if sl.ID == op.Stream && sl.Key != cur {
+						o.onDemandNote = "/superseded-view"
+					}
+				}
+			}
 			o.onDemand[fmt.Sprintf("%s/%d", op.Conv, op.Stream)] = true
 			o.s.res.Count("probe_on_demand_conversion", 1)
-			if o.on("C16") && r.Text != "empty" {
+			if o.on("C16") && r.Text != "empty" && o.onDemandNote == "/current-view" {
 				want, got, _ := strings.Cut(r.Text, "/")
 				if got != want {
-					o.violate("convert", "on-demand-stale", fmt.Sprintf("StreamData(%d,%s) returned output made for payload %s, the view's payload is %s", op.Stream, op.Conv, got, want))
+					key := fmt.Sprintf("conv/%s/%d/%s", op.Conv, op.Stream, got)
+					sig, seen := o.firstSeen[key]
+					if !seen {
+						sig = "on-demand-stale/current-view"
+					}
+					o.violate("convert", sig, fmt.Sprintf("StreamData(%d,%s) returned output made for payload %s, the view's payload is %s", op.Stream, op.Conv, got, want))
 				}
 			}
 		}
@@ -370,12 +398,23 @@ func (o *oracles) afterStep(st stepRef) {
 	if o.s.plan.NoOracle {
 		return
 	}
+	if !(st.kind == "api" && o.lastAPI != nil && o.lastAPI.op.K == "StreamData") {
+		o.onDemandNote = ""
+	}
 	o.refreshState()
 	if o.state == nil {
 		o.s.res.Infra = "state probe failed"
 		return
 	}
 	o.processed()
+	o.noteTagChanges()
+	if os.Getenv("VERIF_TRACE") != "" {
+		fmt.Fprintf(os.Stderr, "TRACE step %d %s:", o.s.stepNo, st.label)
+		for _, t := range o.state.Tags {
+			fmt.Fprintf(os.Stderr, " %s=%q m=%v u=%v;", t.Name, t.Definition, t.Matches, t.Uncertain)
+		}
+		fmt.Fprintf(os.Stderr, " idx=%v jobs=%d\n", o.state.Indexes, len(o.s.jobs))
+	}
 	o.noteProbes(st)
 	if o.s.draining && o.on("C09") && o.s.drainN > o.drainBound {
 		o.violate("settle", "drain-bound", fmt.Sprintf("%d background steps after the last API call (bound %d): jobs keep restarting", o.s.drainN, o.drainBound))
@@ -561,6 +600,99 @@ func convReading(def string) bool {
 	return false
 }
 
+// noteTagChanges records at which steps a tag's membership or definition changed.
+func (o *oracles) noteTagChanges() {
+	prev := map[string]string{}
+	if o.prevState != nil {
+		for _, t := range o.prevState.Tags {
+			prev[t.Name] = fmt.Sprint(t.Definition, t.Matches)
+		}
+	}
+	cur := map[string]bool{}
+	for _, t := range o.state.Tags {
+		cur[t.Name] = true
+		if p, ok := prev[t.Name]; !ok || p != fmt.Sprint(t.Definition, t.Matches) {
+			o.changedAt[t.Name] = append(o.changedAt[t.Name], o.s.stepNo)
+		}
+	}
+	for n := range prev {
+		if !cur[n] {
+			o.changedAt[n] = append(o.changedAt[n], o.s.stepNo)
+		}
+	}
+}
+
+// refChangedDuringJob: did a tag that name (transitively) references change
+// while the tagging job that just completed for name was in flight?
+func (o *oracles) refChangedDuringJob(name string, j *jobRec) bool {
+	if j == nil || j.kind != simrt.KindTag || j.arg != name {
+		return false
+	}
+	defs := map[string]string{}
+	for _, t := range o.state.Tags {
+		defs[t.Name] = t.Definition
+	}
+	seen := map[string]bool{name: true}
+	todo := defRefs(defs[name])
+	for len(todo) > 0 {
+		r := todo[0]
+		todo = todo[1:]
+		if seen[r] {
+			continue
+		}
+		seen[r] = true
+		for _, st := range o.changedAt[r] {
+			if st > j.spawnStep && st <= o.s.stepNo {
+				return true
+			}
+		}
+		todo = append(todo, defRefs(defs[r])...)
+	}
+	return false
+}
+
+// rootClass names the cause class of a tag for violation signatures: the
+// tag's own definition and everything it references count.
+func (o *oracles) rootClass(name string, gerr map[string]string) string {
+	defs := map[string]string{}
+	for _, t := range o.state.Tags {
+		defs[t.Name] = t.Definition
+	}
+	seen := map[string]bool{}
+	var closure []string
+	var walk func(n string)
+	walk = func(n string) {
+		if seen[n] {
+			return
+		}
+		seen[n] = true
+		closure = append(closure, n)
+		for _, r := range defRefs(defs[n]) {
+			walk(r)
+		}
+	}
+	walk(name)
+	for _, n := range closure {
+		if gerr[n] == "impossible" {
+			return "impossible-definition"
+		}
+	}
+	for _, n := range closure {
+		if strings.Contains(defs[n], "@") {
+			return "subquery"
+		}
+	}
+	for _, n := range closure {
+		if convReading(defs[n]) {
+			return "converter-data"
+		}
+	}
+	if len(closure) > 1 {
+		return "tag-ref"
+	}
+	return defClass(defs[name])
+}
+
 func (o *oracles) checkTags(st stepRef) {
 	r := o.s.probe(Op{K: "Recompute"})
 	for _, n := range sortedKeys(r.GErr) {
@@ -569,35 +701,43 @@ func (o *oracles) checkTags(st stepRef) {
 			o.s.res.Count("recompute_errors", 1)
 		}
 	}
-	// transitive: a tag referencing a converter-reading tag also depends on the cache
-	reads := map[string]bool{}
-	for _, t := range o.state.Tags {
-		if convReading(t.Definition) {
-			reads[t.Name] = true
-		}
-	}
-	for changed := true; changed; {
-		changed = false
-		for _, t := range o.state.Tags {
-			if reads[t.Name] {
-				continue
-			}
-			for _, ref := range t.References {
-				if reads[ref] {
-					reads[t.Name] = true
-					changed = true
-				}
-			}
-		}
-	}
+	o.flagged = map[string]bool{}
 	n := uint(o.state.NextStreamID)
+	// referenced tags first, so that a tag computed from a stale referenced
+	// tag is attributed to the root cause
+	order := []string{}
+	done := map[string]bool{}
+	byName := map[string]int{}
+	for i, t := range o.state.Tags {
+		byName[t.Name] = i
+	}
+	var visit func(name string, depth int)
+	visit = func(name string, depth int) {
+		if done[name] || depth > 16 {
+			return
+		}
+		done[name] = true
+		if i, ok := byName[name]; ok {
+			for _, ref := range o.state.Tags[i].References {
+				visit(ref, depth+1)
+			}
+			order = append(order, name)
+		}
+	}
 	for _, t := range o.state.Tags {
+		visit(t.Name, 0)
+	}
+	sigOf := map[string]string{}
+	for _, name := range order {
+		t := o.state.Tags[byName[name]]
 		g, ok := r.G[t.Name]
 		if !ok {
 			continue
 		}
-		if o.convJobActive && reads[t.Name] {
+		class := o.rootClass(t.Name, r.GErr)
+		if o.convJobActive && class == "converter-data" {
 			o.s.res.Count("c06_relaxed_converter_in_flight", 1)
+			o.flagged[t.Name] = true
 			continue
 		}
 		G, M, U := setOf(g), setOf(t.Matches), setOf(t.Uncertain)
@@ -610,12 +750,39 @@ func (o *oracles) checkTags(st stepRef) {
 				if M[s] {
 					kind = "extra"
 				}
-				class := defClass(t.Definition)
-				if st.kind == "final" {
-					class += "/quiescent"
+				// a stale bit stays stale: attribute it to the step at which it was first seen
+				key := fmt.Sprintf("tag/%s/%d/%v/%s", t.Name, s, M[s], t.Definition)
+				sig, seen := o.firstSeen[key]
+				if !seen {
+					sig = class + "/" + kind + "@" + o.trigger()
+					if st.kind == "post" && o.refChangedDuringJob(t.Name, st.job) {
+						sig = "ref-changed-during-job/" + kind + "@post:tag"
+					}
+					if st.kind == "final" {
+						sig = class + "/" + kind + "@quiescence"
+					}
+					// computed from a referenced tag that is itself stale right now: same root cause
+					for _, ref := range t.References {
+						if rs, ok := sigOf[ref]; ok {
+							sig = rs
+						}
+					}
+					o.firstSeen[key] = sig
 				}
-				if o.violate("tag-stale", class+"/"+kind+"@"+o.trigger(), fmt.Sprintf("tag %s (%q): stream %d is reported decided, member=%v, but evaluating the definition gives %v (matches=%v uncertain=%v recomputed=%v)", t.Name, t.Definition, s, M[s], G[s], t.Matches, t.Uncertain, g)) {
+				o.flagged[t.Name] = true
+				sigOf[t.Name] = sig
+				if o.violate("tag-stale", sig, fmt.Sprintf("tag %s (%q): stream %d is reported decided, member=%v, but evaluating the definition gives %v (matches=%v uncertain=%v recomputed=%v)", t.Name, t.Definition, s, M[s], G[s], t.Matches, t.Uncertain, g)) {
 					return
+				}
+				break
+			}
+		}
+		if rs, ok := sigOf[t.Name]; !ok {
+			// not stale itself, but pass on the flag of a stale referenced tag
+			for _, ref := range t.References {
+				if x, ok := sigOf[ref]; ok {
+					rs = x
+					sigOf[t.Name] = rs
 				}
 			}
 		}
@@ -639,22 +806,39 @@ func (o *oracles) checkTags(st stepRef) {
 		if v != nil {
 			msg = v.Err
 		}
-		if o.violate("view", "view-error", "fresh view failed: "+msg) {
-			return
-		}
+		o.violate("view", "view-error", "fresh view failed: "+msg)
+		return
 	}
 	var all []uint64
 	for _, sl := range v.Streams {
 		all = append(all, sl.ID)
 	}
+	// a tag that references a tag flagged above inherits the flag: its
+	// answers are judged at the root cause only
+	for changed := true; changed; {
+		changed = false
+		for _, t := range o.state.Tags {
+			if o.flagged[t.Name] {
+				continue
+			}
+			for _, ref := range t.References {
+				if o.flagged[ref] {
+					o.flagged[t.Name] = true
+					changed = true
+				}
+			}
+		}
+	}
 	for _, t := range o.state.Tags {
 		g, ok := r.G[t.Name]
-		if !ok {
+		if !ok || o.flagged[t.Name] {
 			continue
 		}
+		class := o.rootClass(t.Name, r.GErr)
 		G := setOf(g)
 		bits := v.TagBits[t.Name]
 		VU := setOf(bits[1])
+		bad := false
 		for _, sl := range v.Streams {
 			if VU[uint(sl.ID)] {
 				continue
@@ -666,10 +850,15 @@ func (o *oracles) checkTags(st stepRef) {
 				}
 			}
 			if has != G[uint(sl.ID)] {
-				if o.violate("view-tags", defClass(t.Definition)+"/shown", fmt.Sprintf("view shows tag %s on stream %d = %v, definition %q evaluates to %v", t.Name, sl.ID, has, t.Definition, G[uint(sl.ID)])) {
+				bad = true
+				if o.violate("view-tags", class+"/shown@"+o.trigger(), fmt.Sprintf("view shows tag %s on stream %d = %v, definition %q evaluates to %v", t.Name, sl.ID, has, t.Definition, G[uint(sl.ID)])) {
 					return
 				}
+				break
 			}
+		}
+		if bad {
+			continue
 		}
 		for _, neg := range []bool{false, true} {
 			q := refName(t.Name) + " sort:id"
@@ -691,10 +880,6 @@ func (o *oracles) checkTags(st stepRef) {
 				}
 			}
 			if fmt.Sprint(got) != fmt.Sprint(want) {
-				class := defClass(t.Definition)
-				if r.GErr[t.Name] == "impossible" {
-					class = "impossible-definition"
-				}
 				pol := "positive"
 				if neg {
 					pol = "negated"
@@ -702,6 +887,7 @@ func (o *oracles) checkTags(st stepRef) {
 				if o.violate("search-tags", class+"/"+pol+"-search", fmt.Sprintf("search %q returned %v, want %v (tag %s = %q)", q, got, want, t.Name, t.Definition)) {
 					return
 				}
+				continue
 			}
 			o.s.res.Count("c06_search_checks", 1)
 		}
